@@ -74,7 +74,13 @@ SPEC = dict(
              'SOURCE TIE of the BoC parser (c19_src_parse, c19_src_loop_iterations): the three loops of Boc.deserialize, deserialize_cell and the header parser are regenerated from '
              'deserialize.py on every run as Py.loop? folds over range(cells_num), reversed(range(cells_num)), root_list (one body execution per element at most) and proved equal to '
              'Model/BocParse.lean, whose recursions Model/Cost.lean transcribes as counters; that the COUNTERS of bocCost equal the iteration counts of the regenerated loops is not proved. '
-             'model computes (c19_src_tl_vector_guard, c19_src_tl_bytes_skip).',
+             'model computes (c19_src_tl_vector_guard, c19_src_tl_bytes_skip). '
+             'SOURCE TIE of the EMITTER loops: Cell.order / to_boc / serialize are regenerated from cell.py on every run (Generated/BocEmitSrc.lean); c19_src_order_linear: on EVERY DAG of cell '
+             'objects (n distinct cells, e references, any sharing; local no-collision hypothesis) the REGENERATED while stack: loop ends within 1+n+e iterations (budget 1+n+e+1 suffices, '
+             'c19_src_while_iterations reads the budget) and returns a valid order - a potential argument over the regenerated loop itself (Proofs/SrcOrderAny.lean), for either push order of the '
+             'references; c19_src_serialize_poly (partial): with that budget the regenerated to_boc is the lookup + layout of exactly n keys carrying e references and the steps counted per loop '
+             '(while, re-insertion, comprehension, serialize + references, index, CRC bytes) are <= 5(n+e)+1+len(output); the for-loops are counted by the lengths of the lists they iterate (read off '
+             'the proved equality with the layout model), not by an instrumented translation.',
         level_note='Trusted: Lean kernel (propext, Classical.choice, Quot.sound); Model/Cost.lean as a hand transcription of the loops of '
                    'cell.py (order, to_boc, __init__/calculate_hashes), deserialize.py, hashmap/parse.py, tl/generator.py (upper-bound '
                    'convention: validity failures that only cut work short are not modelled); harness/translate/tl_cost.py + TlEnv (the bundled '
